@@ -194,7 +194,13 @@ func vpTransfer(src *KVStore, ref []vpRef, size uint64) *KVStore {
 // vpStep performs one script step of symbolic kind on the store and the reference model and returns
 // the store to continue with (a transfer replaces it by the receiving store).
 func vpStep(s *KVStore, ref []vpRef, nkeys, big int, size uint64, budget int, ops int) *KVStore {
-	op := vpChoose("op", ops)
+	var op int
+	if ops < 0 {
+		// mutations only: Put, PutRaw, Delete, UpdateTTL
+		op = [4]int{0, 1, 2, 4}[vpChoose("op", -ops)]
+	} else {
+		op = vpChoose("op", ops)
+	}
 	switch op {
 	case 0, 1: // Put / PutRaw
 		k := vpChoose("key", nkeys)
@@ -253,5 +259,25 @@ func VerifC11_Map() {
 		s = vpStep(s, ref, nkeys, big, size, 2*steps+4, 6)
 		vpCheckStore(s, ref)
 	}
+	vpReach("end")
+}
+
+// VerifC11_Transfer: any script over {Put, PutRaw, Delete, UpdateTTL} (so that tables hold dead versions and
+// deleted entries), then a transfer of every table to a fresh store, then one more step: the receiving store
+// equals the reference map.
+func VerifC11_Transfer() {
+	nkeys := vpBound("keys")
+	steps := vpBound("steps")
+	big := vpBound("biglen")
+	size := vpU64("tableSize")
+	vpAssume(size >= 31 && size <= uint64(4*(30+big)))
+	s := vpMkStore(size)
+	ref := make([]vpRef, nkeys)
+	for i := 0; i < steps; i++ {
+		s = vpStep(s, ref, nkeys, big, size, 2*steps+4, -4)
+	}
+	vpCheckStore(s, ref)
+	s = vpTransfer(s, ref, size)
+	vpCheckStore(s, ref)
 	vpReach("end")
 }
